@@ -372,6 +372,10 @@ def run(tier="quick", seed=0, jobs=None):
     units.append(dict(docs="anchors", paths="anchors", lo=0, hi=1))
     units += _units("random", nrandom, 500, paths="random")
     random.Random(seed).shuffle(units)
+    frac = float(os.environ.get("VERIF_UNIT_FRACTION", "1"))      # smoke runs only; recorded in bounds
+    if frac < 1:
+        units = units[:max(1, int(len(units) * frac))]
+        bounds["unit_fraction"] = frac
     col = Collector()
     for part in pmap_chunks(_work, units, jobs=jobs, chunk=1, extra=(seed,)):
         col.merge(part)
@@ -379,7 +383,7 @@ def run(tier="quick", seed=0, jobs=None):
                    "documents": {k: len(v) for k, v in DOCSETS.items()},
                    "index_values": "[i] for i in -9,-4..4,9; bare keys 0,1,2,7,-1,-2,-4", "slice_bounds": "ints -9..9 incl. reversed/equal, and non-integer terms",
                    "notations": "dot (3 of 4 cases) and forward-slash (1 of 4), alternating"})
-    return col.result(rule=RULE, exhaustive=True, bounds=bounds, property=PROP, tier=tier)
+    return col.result(rule=RULE, exhaustive=frac >= 1, bounds=bounds, property=PROP, tier=tier)
 
 
 def replay(inp):
